@@ -13,7 +13,8 @@ for d in engine/checks/*/; do
     ( cd engine && $G test -c -vet=off -tags verif -o /dev/null ./checks/$pkg/ ) || rc=1
   fi
   if [ -f "$d/race_pkg" ]; then
-    ( cd engine && $G test -race -c -vet=off -tags verif -o /dev/null ./checks/$(cat "$d/race_pkg")/ ) || rc=1
+    rpkg=$(cat "$d/race_pkg")
+    ( cd engine && $G test -race -c -vet=off -tags verif -o /dev/null ./checks/$rpkg/ ) || rc=1
   fi
 done
 exit $rc
